@@ -170,6 +170,17 @@ def h_getattr(eng, obj, name, st, node):
             return [(st, V('task', z=REMOVED))]
     if obj.k == 'class' and name == '_REMOVED':
         return [(st, V('task', z=REMOVED))]
+    if obj.k == 'tqfinder' and name == 'get':
+        def get(eng, args, kwargs, st, node):
+            t = args[0].z
+            outs = []
+            for st1, has in eng.branch(st, Gz(st, '__inF', eng)[t], node):
+                if has:
+                    outs.append((st1, V('entry', z=Gz(st1, '__finder', eng)[t])))
+                else:
+                    outs.append((st1, args[1] if len(args) > 1 else NONE))
+            return outs
+        return [(st, V('func', py=('spec', get)))]
     if obj.k == 'tqfinder' and name == 'pop':
         def pop(eng, args, kwargs, st, node):
             t = args[0].z
